@@ -539,7 +539,8 @@ class Script(object):
                 if 0 < ival <= 16:
                     s_items.append(ival.to_bytes(1, 'big'))
                 else:
-                    s_items.append(int_to_varbyteint(ival))
+                    # a number in a script is a script number (little endian with sign bit), not a variable length integer
+                    s_items.append(encode_num(ival))
             elif item.startswith('OP_'):
                 s_items.append(getattr(op, item.lower(), 'unknown-command-%s' % item))
             else:
